@@ -8,9 +8,10 @@ import numpy as np
 
 from harness import common
 
-SHAPES = {"v": (2,), "w": (3, 4)}
-EXPONENT = {"v": 2, "w": 4}     # 2 * rank of the (unmerged) parameter
-MAXSZ = 4
+SHAPES = {"u": (1,), "v": (2,), "w": (3, 4), "x": (1, 3)}
+EXPONENT = {"u": 2, "v": 2, "w": 4, "x": 4}     # 2 * rank of the (unmerged) parameter
+# best_effort_shape_interpretation=False: no merging of dimensions, so x:(1,3) keeps its 1x1 and
+# 3x3 statistics (for u, v, w this is what merge_small_dims_block_size=1 gives anyway)
 START_PRECOND = 2
 
 
@@ -37,10 +38,12 @@ def run(payload):
   from precondition import distributed_shampoo as ds
 
   out = []
-  names = sorted(SHAPES)
-  params = {k: jnp.ones(SHAPES[k], jnp.float32) for k in names}
   for grp in payload["groups"]:
     cfg = grp["cfg"]
+    # the parameter tree is the set of keys of the gradients (all histories of a group agree)
+    names = sorted(grp["histories"][0]["grads"][0].keys())
+    params = {k: jnp.ones(SHAPES[k], jnp.float32) for k in names}
+    MAXSZ = max(max(SHAPES[k]) for k in names)
     mode = cfg["mode"]
     D = 2 if mode == "pmapq" else 1
     kw = dict(beta1=0.9, beta2=cfg["beta2"], matrix_epsilon=cfg["eps"],
@@ -48,6 +51,7 @@ def run(payload):
               preconditioning_compute_steps=cfg["pcs"],
               graft_type=getattr(ds.GraftingType, cfg["graft"]),
               inverse_failure_threshold=cfg["thr"], merge_small_dims_block_size=1,
+              best_effort_shape_interpretation=False,
               generate_training_metrics=True, eigh=cfg["eigh"])
     mesh = None
     gres = dict(gid=grp["gid"], histories=[])
